@@ -15,7 +15,7 @@ from .report import (RULES, Collector, Ob, OK, BENIGN, VIOLATED, WITNESS_FILE, k
 from .props import PROPS
 from .witness import WITNESS_SRC
 
-RULE_MODULES = ["eff", "core", "fresh", "protocol", "adjoint", "solver", "lints", "opt", "fem", "eig", "io"]
+RULE_MODULES = ["eff", "core", "fresh", "protocol", "adjoint", "solver", "lints", "opt", "fem", "eig", "io", "extra"]
 
 
 def load_rules():
@@ -33,22 +33,31 @@ def run_rules(rids: List[str], tier: str):
     flow = FlowCtx(model)
     ctx = RuleCtx(model, flow, tier)
     results: Dict[str, Collector] = {}
+    errors: Dict[str, str] = {}
     for rid in rids:
         spec = RULES.get(rid)
         if spec is None:
             raise AnalysisError(f"rule {rid} is not implemented")
         col = Collector(rid)
-        spec.fn(ctx, col)
+        results[rid] = col
+        # a rule that cannot analyse its anchor fails the run (exit 2) but does not hide what the other rules find
+        try:
+            spec.fn(ctx, col)
+        except AnalysisError as e:
+            errors[rid] = str(e)
+            continue
+        except Exception:
+            errors[rid] = "internal error in the analysis:\n" + traceback.format_exc()
+            continue
         real = [o for o in col.obs if not o.is_witness]
         wit = [o for o in col.obs if o.is_witness and o.status == VIOLATED]
         if len(real) < spec.floor:
-            raise AnalysisError(f"rule {rid}: only {len(real)} instances found, expected at least {spec.floor} "
-                                f"(vacuity guard: an anchor moved or the recogniser no longer matches)")
-        if len(wit) < spec.witness_min:
-            raise AnalysisError(f"rule {rid}: {len(wit)} of {spec.witness_min} witness constructs flagged "
-                                f"(the rule no longer recognises its own positive example)")
-        results[rid] = col
-    return model, flow, results
+            errors[rid] = (f"rule {rid}: only {len(real)} instances found, expected at least {spec.floor} "
+                           f"(vacuity guard: an anchor moved or the recogniser no longer matches)")
+        elif len(wit) < spec.witness_min:
+            errors[rid] = (f"rule {rid}: {len(wit)} of {spec.witness_min} witness constructs flagged "
+                           f"(the rule no longer recognises its own positive example)")
+    return model, flow, results, errors
 
 
 def check(prop: str, tier: str) -> int:
@@ -59,7 +68,7 @@ def check(prop: str, tier: str) -> int:
         return 2
     spec = PROPS[prop]
     rids = list(spec["quick"]) + (list(spec.get("thorough", [])) if tier == "thorough" else [])
-    model, flow, results = run_rules(rids, tier)
+    model, flow, results, errors = run_rules(rids, tier)
     known = known_for(prop)
     all_obs: List[Ob] = []
     violations: List[Ob] = []
@@ -101,6 +110,9 @@ def check(prop: str, tier: str) -> int:
         print(f"{o.file}:{o.line} {o.rule} {o.where}: {o.msg}")
         path = write_replay(prop, o, tier)
         print(f"VIOLATION property={prop} replay={path}")
+    for rid, msg in errors.items():
+        print(f"ANALYSIS-ERROR {msg if msg.startswith('rule ') else 'rule ' + rid + ': ' + msg}")
+        assumptions.insert(0, f"ANALYSIS-ERROR in {rid}: {msg.splitlines()[0]}")
     analysed = {
         "files_parsed": len(model.modules) - 1,
         "classes": len(model.classes),
@@ -111,7 +123,7 @@ def check(prop: str, tier: str) -> int:
     write_evidence(prop, tier, seed, spec["explanation"], per_rule, all_obs, known_hits, violations,
                    assumptions[:200], analysed, time.time() - t0,
                    f"/venv/bin/python -m pmlint check {prop} --tier {tier}")
-    return 1 if violations else 0
+    return 1 if violations else (2 if errors else 0)
 
 
 def replay(path: str) -> int:
@@ -121,7 +133,10 @@ def replay(path: str) -> int:
     prop, key = d["property"], d["key"]
     rid = d["obligation"]["rule"]
     load_rules()
-    model, flow, results = run_rules([rid], "thorough")
+    model, flow, results, errors = run_rules([rid], "thorough")
+    if errors:
+        print(f"ANALYSIS-ERROR {errors[rid]}")
+        return 2
     for o in results[rid].obs:
         if o.key == key and o.status == VIOLATED and not o.is_witness:
             print(f"{o.file}:{o.line} {o.rule} {o.where}: {o.msg}")
@@ -150,7 +165,9 @@ def main(argv=None) -> int:
             load_rules()
             from .report import RULES as _R
             _R[argv[1]].floor = 0
-            model, flow, results = run_rules([argv[1]], "thorough")
+            model, flow, results, errors = run_rules([argv[1]], "thorough")
+            for e in errors.values():
+                print("ANALYSIS-ERROR", e)
             for o in results[argv[1]].obs:
                 print(f"{'W ' if o.is_witness else '  '}{o.status:<18} {o.file}:{o.line} {o.where} [{o.construct}] {o.msg}")
             print(len([o for o in results[argv[1]].obs if not o.is_witness]), "instances")
